@@ -297,7 +297,7 @@ def validate_file(spec, path, workdir, off=()):
 GROUPS = ['md', 'status', 'pay', 'ids', 'wire', 'ctx', 'fault', 'serve', 'pend', 'reg', 'letgo', 'robust', 'route']
 # which rule groups can be responsible for the rejection of which event
 EV_GROUPS = {
-    'CW': ['ids', 'wire', 'md', 'pay', 'ctx'], 'SR': ['route'], 'CR': ['route'], 'SW': ['wire', 'status', 'md', 'pay'],
+    'CW': ['ids', 'wire', 'md', 'pay', 'ctx', 'route'], 'SR': ['route'], 'CR': ['route'], 'SW': ['wire', 'status', 'md', 'pay', 'route'],
     'HStart': ['pay', 'md'], 'HRecvRet': ['pay', 'ctx'], 'HSendRet': ['ctx'], 'HSendBad': ['pay'], 'HSetHdr': ['md'],
     'HSendHdrRet': ['md'], 'HCtxDone': ['ctx'], 'URet': ['status', 'pay'], 'SOpenRet': ['fault'],
     'SSendRet': ['ctx', 'fault'], 'SSendBadRet': ['fault'], 'SCloseRet': ['fault'], 'SRecvRet': ['pay', 'status', 'ctx'],
